@@ -66,6 +66,7 @@ PROPS["C13"] = dict(
         "PrimitiveOperation construction have one origin, that the plan total sums every primitive op, and "
         "(with MAP-ONCE-1) that the parallel map emits at most one result per input. Dominance facts cover "
         "every DAG, executor option and completion order; tests observe a handful of runs. The three dispatch helpers call the matching Callback method on every callback given (EVENTS-HELPERS-1); new futures registered in the input map are awaited and the batch refill submits the next batch exactly when there is one (MAP-SUBMIT-1); an explicit task iterable is re-iterable (COUNT-1)."
+            ' A task-iterable class hands out a fresh iterator on every __iter__ (no one-shot iterator kept on the instance).'
     ),
     note="Third-party executors (lithops, dask, ray, modal, spark, coiled) are out of scope of this property; ThreadsExecutor/ProcessesExecutor reach async_map_dag, which is analysed.",
     design="DESIGN.md §4 C13",
@@ -81,6 +82,7 @@ PROPS["C07"] = dict(
         "no future is pending, that create-arrays is wired as a predecessor of every executable node, and "
         "that every array read by an operation is a graph predecessor of it. Together: on every schedule an "
         "operation starts only after its producers' streams were drained. An array node gets an edge from the operation node created with it; an operation is skipped on resume only after all of its outputs were found complete (RESUME-ALL-1)."
+            ' The batch refill is gated by the batch state alone (no unrelated option in front of it).'
     ),
     note="asyncio / concurrent.futures scheduling and storage consistency are assumed as documented; FUSE-REWIRE-1 (C02) covers edge preservation through optimisation.",
     design="DESIGN.md §4 C07",
@@ -96,6 +98,7 @@ PROPS["C09"] = dict(
         "every node, before the executor call; skip_node honours exactly that key with a falsy default; "
         "arrays are re-created with mode \"a\" and an open-on-exists fallback; every store backend writes empty "
         "chunks. These are facts about every crash point at once; a test can inject a handful. The resume decision is a read-only query (RESUME-PURE-1): nothing is remembered on plan nodes or target arrays."
+            ' RESUME-PROVIDER-1: a storage class holding several arrays (structured dtype: one array per field) either offers no completeness report (resume refuses it) or answers for all members.'
     ),
     note="Does not decide value equality of a resumed run (needs execution); zarr's nchunks_initialized and write atomicity are trusted.",
     design="DESIGN.md §4 C09",
@@ -206,6 +209,7 @@ PROPS["C03"] = dict(
         "over as iterators and consumed one block at a time through fusion; declared extra memory has unit "
         "bytes (thorough tier)."
             " Also: what a streaming reduction carries between blocks is reduced again in the same iteration (bounded accumulator), and array_memory(<dtype>, <own output chunks>) uses the operation's output dtype (MEM-DTYPE-1). No container outlives an iteration of the block loop with per-block data in it, and extra memory declared from an operand's chunk size is computed from the operand as passed, not from a value taken before the operand variable was rebound (MEM-STALE-1)."
+            " MULTI-EDGE-1: operand counts that feed the fusion limits walk edges (one per operand position), never networkx's set-valued neighbour views; CHUNKMEM-1: every provider of `chunkmem` (which chunk_memory() trusts) returns the memory of a whole chunk, never a total divided by a count."
     ),
     note=(
         "Does NOT decide that a task's real allocations stay under the bound (NumPy temporaries, codec "
